@@ -83,6 +83,146 @@ c.check("public_key", _convert_checks)
 c.raises("ValueError")  # not a PEM private key
 
 
+# ------------------------------------------------------------------------------------------------
+# The command entry points cmd_keys.main and cmd_convert.main hand their arguments on BY POSITION: every named argument must reach ITS
+# parameter (key type / encoding / the two formats, and for convert: which file is read, which is written, and which option is which).
+import contracts.C00_common as C00  # noqa: E402
+
+
+def _keys_main_setup(it, env):
+    it.call_site_summaries = {"KeyGenerator.create_key_pair": C00.recording_summary("KeyGenerator.create_key_pair", ("ValueError", "GeneratorError", "TypeError", "FileNotFoundError"))}
+
+
+c = Contract(FK, "main", ["C15"])
+for n_ in ("output_file", "type", "encoding", "private_format", "public_format", "encryption"):
+    c.param(n_, Str())
+c.variants = [("keys", {})]
+c.setup = _keys_main_setup
+
+
+def _keys_main_checks(it, ctx):
+    import z3
+    if ctx.outcome != "return":
+        return None
+    calls = C00.calls_of(it, "KeyGenerator.create_key_pair")
+    goals = [("one_key_pair_is_created", z3.BoolVal(len(calls) == 1))]
+    if len(calls) == 1:
+        goals += C00.reaches(calls[0], ctx, [("file_name_prefix", "output_file"), ("key_type", "type"), ("encoding", "encoding"), ("private_format", "private_format"),
+                                             ("public_format", "public_format"), ("encryption", "encryption")])
+    return goals
+
+
+c.check("entry", _keys_main_checks)
+for e_ in ("ValueError", "GeneratorError", "TypeError", "FileNotFoundError"):
+    c.raises(e_)
+
+_CONV_STR = ("input_file", "output_file", "array_type", "array_name", "length_type", "length_name", "header_file", "footer_file")
+
+
+def _convert_main_setup(it, env):
+    it.call_site_summaries = {"KeyConverter.__init__": C00.recording_summary("KeyConverter.__init__", ("ValueError",)),
+                              "KeyConverter.generate_c_file": C00.recording_summary("KeyConverter.generate_c_file", ("ValueError", "GeneratorError", "FileNotFoundError"))}
+
+
+c = Contract(FC, "main", ["C15"])
+for n_ in _CONV_STR:
+    c.param(n_, Str())
+c.param("columns_count", Int())
+c.param("indentation_count", Int())
+c.param("indentation_tab", Bool())
+c.param("no_length", Bool())
+c.param("no_const", Bool())
+c.variants = [("convert", {})]
+c.setup = _convert_main_setup
+
+
+def _convert_main_checks(it, ctx):
+    import z3
+    if ctx.outcome != "return":
+        return None
+    inits, gens = C00.calls_of(it, "KeyConverter.__init__"), C00.calls_of(it, "KeyConverter.generate_c_file")
+    goals = [("one_converter_is_built_and_run", z3.BoolVal(len(inits) == 1 and len(gens) == 1 and gens[0][2]["self"] is inits[0][2]["self"]))]
+    if len(inits) == 1:
+        goals += C00.reaches(inits[0], ctx, [(n, n) for n in _CONV_STR + ("columns_count", "indentation_count", "indentation_tab", "no_length", "no_const")])
+    return goals
+
+
+c.check("entry", _convert_main_checks)
+for e_ in ("ValueError", "GeneratorError", "FileNotFoundError"):
+    c.raises(e_)
+
+# ------------------------------------------------------------------------------------------------
+# KeyConverter: the constructor stores every option in ITS attribute; the C text is header + definition + array + end + length + footer in this
+# order, written to the OUTPUT file; the length variable is `sizeof(<the array that was declared>)`; the options only change the text around the
+# array rows (the rows themselves come from _prepare_array, whose bytes are _get_public_key_data's - contract above).
+KC = Obj(FC, "KeyConverter", _input_file=Str(), _output_file=Str(), _array_type=Str(), _array_name=Str(), _length_type=Str(), _length_name=Str(), _columns_count=Int(),
+         _header_file=Str(), _footer_file=Str(), _no_length=Bool(), _no_const=Bool(), _indentation_character=Str(), _indentation_count=Int(), _indentation=Str())
+
+c = Contract(FC, "KeyConverter.__init__", ["C15"])
+c.param("self", Obj(FC, "KeyConverter"))
+for n_ in _CONV_STR:
+    c.param(n_, Str())
+c.param("columns_count", Int())
+c.param("indentation_count", OneOf(0, 1, 2, 4, 8, -1))
+c.param("indentation_tab", Bool())
+c.param("no_length", Bool())
+c.param("no_const", Bool())
+c.variants = [("init", {})]
+c.returns("every_option_is_stored_in_its_attribute",
+          " and ".join(f"self._{n} == {n}" for n in _CONV_STR + ("columns_count", "indentation_count", "no_length", "no_const")))
+c.returns("indentation_is_count_times_the_chosen_character", "self._indentation == ('\\t' if indentation_tab else ' ') * indentation_count")
+c.returns("validated", "columns_count > 0 and indentation_count >= 0")
+c.raises("ValueError")
+c.raises("FileNotFoundError")
+
+c = Contract(FC, "KeyConverter._prepare_array_definition", ["C15"])
+c.param("self", KC)
+c.variants = [("definition", {})]
+c.returns("declares_the_named_array_of_the_named_type", "result == ('' if self._no_const else 'const ') + self._array_type + ' ' + self._array_name + '[] = {' + '\\n'")
+
+c = Contract(FC, "KeyConverter._prepare_length_variable", ["C15"])
+c.param("self", KC)
+c.variants = [("length", {})]
+c.returns("absent_when_not_wanted", "not self._no_length or result == ''")
+c.returns("length_is_sizeof_the_declared_array",
+          "self._no_length or result == '\\n' + ('' if self._no_const else 'const ') + self._length_type + ' ' + self._length_name + ' = ' "
+          "+ ('' if self._length_type == 'size_t' else '(' + self._length_type + ') ') + 'sizeof(' + self._array_name + ');' + '\\n'")
+
+
+def _gen_setup(it, env):
+    def piece(name):
+        return C00.recording_summary(name, (), result=lambda it_: it_.fresh_str(name.split(".")[-1]))
+    it.call_site_summaries = {n: piece(n) for n in ("KeyConverter._prepare_header", "KeyConverter._prepare_array_definition", "KeyConverter._prepare_array",
+                                                    "KeyConverter._prepare_array_variable_end", "KeyConverter._prepare_length_variable", "KeyConverter._prepare_footer")}
+
+
+c = Contract(FC, "KeyConverter.generate_c_file", ["C15"])
+c.param("self", KC)
+c.variants = [("file", {})]
+c.setup = _gen_setup
+
+
+def _gen_checks(it, ctx):
+    import z3
+    if ctx.outcome != "return":
+        return None
+    order = ["KeyConverter._prepare_header", "KeyConverter._prepare_array_definition", "KeyConverter._prepare_array", "KeyConverter._prepare_array_variable_end",
+             "KeyConverter._prepare_length_variable", "KeyConverter._prepare_footer"]
+    calls = [t for t in it.trace if t[0] == "call" and t[1] in order]
+    ok = [t[1] for t in calls] == order and all(t[2]["self"] is ctx.arg("self") for t in calls)
+    goals = [("every_part_is_produced_once_in_order_for_this_converter", z3.BoolVal(ok))]
+    if ok:
+        text = calls[0][3].e
+        for t in calls[1:]:
+            text = z3.Concat(text, t[3].e)
+        ctx.env.set("OUT", ctx.old("self").attrs["_output_file"])
+        goals.append(("output_file_holds_the_parts_in_order", ctx.eval("TEXTFILE(OUT)").e == text))
+    return goals
+
+
+c.check("file", _gen_checks)
+c.raises("FileNotFoundError")
+
 # ================================================================================================
 # B — bounded stand-in: cmd_keys.main / cmd_convert.main on real keys; oracle: cryptography's X9.62 point / raw encodings
 # ================================================================================================
